@@ -154,7 +154,10 @@ def _monitored_run(src, inputs, o):
     rstart = {}
     for name, rec in dbg.routines.items():
         rstart[rec.start_offset] = name
-    rstart.setdefault(5, '_main')     # after the initial call/halt
+    # the main program starts where the initial call goes
+    if op_code_to_instr[mod.code[0]].op == 'call':
+        import struct as _st
+        rstart.setdefault(_st.unpack('>I', mod.code[1:5])[0], '_main')
     gtypes = cell_type_map(comp, list(code._globals.items()))
     ftypes = {}
     for name, r in comp.routines.items():
@@ -184,8 +187,21 @@ def _monitored_run(src, inputs, o):
                 op_code = mod.code[pc]
                 ins = op_code_to_instr.get(op_code)
                 opn = ins.op if ins else '?'
+                pending_ref = None
+                if opn == 'storeref' and cpu.stack and cpu.stack[-1].type.name == 'REFERENCE':
+                    pending_ref = cpu.stack[-1].value          # where the store is about to land
                 cpu.tick()
                 ticks += 1
+                if pending_ref is not None and not cpu.halted:
+                    # a store through a reference (array element, record field, by-reference parameter): the cell it lands in
+                    # must be declared with the type of the value stored
+                    seg, ridx = pending_ref.segment, pending_ref.index
+                    rmap = gtypes if seg is cpu.globals_segment else (ftypes.get(frames[id(seg)][0]) if id(seg) in frames else None)
+                    if rmap is not None and ridx is not None and ridx < len(rmap) and rmap[ridx] is not None:
+                        cell = seg.get_cell(ridx)
+                        if cell is not None and cell.type.name != rmap[ridx] and len(problems) < 5:
+                            problems.append(('stored-cell-type-differs-from-declared-type', pc, opn, ridx, cell.type.name, rmap[ridx],
+                                             info[0] if info else None))
                 if opn == 'frame' and not cpu.halted:
                     nf = cpu.cur_frame
                     frames[id(nf)] = [rstart.get(pc, '?'), len(cpu.stack), 0]
@@ -244,6 +260,17 @@ def border_programs():
     for arg in ('big()', 'big', 'big(1)', 't$', '(n%)', 'n% + 0', '1.5', '"s"', 'n%, n%', ''):
         out.append(head + f'CALL p({arg})\nPRINT n%; big(1)\nEND\nSUB p (a%)\n  a% = a% + 1\n  PRINT a%\nEND SUB\n')
         out.append(head + f'CALL pa({arg})\nPRINT n%; big(1)\nEND\nSUB pa (a() AS LONG)\n  a(2) = 7\n  PRINT a(1)\nEND SUB\n')
+    # constant array bounds that are not whole numbers (the frame is sized at compile time, the header is written at run time:
+    # both must round the same way), with a neighbour of another type behind the array
+    for dim, last in (('3.5', 4), ('2.6', 3), ('7 / 2', 4), ('-0.6 TO 2', -1), ('-1.5 TO 0', -2), ('3.4999999999', 4), ('1 TO 2.5', 2)):
+        for nb, val in (('s AS STRING', '"x"'), ('d AS DOUBLE', '1.5'), ('l AS LONG', '70000')):
+            nm = nb.split()[0]
+            out.append(f'DIM a({dim}) AS INTEGER\nDIM {nb}\n{nm} = {val}\na({last}) = 7\nPRINT a({last}); {nm}\n')
+            out.append(f'CALL p\nEND\nSUB p\n  DIM a({dim}) AS INTEGER\n  DIM {nb}\n  {nm} = {val}\n  a({last}) = 7\n  PRINT a({last}); {nm}\nEND SUB\n')
+    # a parameter as FOR variable (it is a reference, not a number)
+    for ty in ('%', '&', '!'):
+        out.append(f'n{ty} = 5\nCALL s(n{ty})\nPRINT n{ty}\nEND\nSUB s (i{ty})\n  FOR i{ty} = 1 TO 3\n    PRINT i{ty};\n  NEXT\nEND SUB\n')
+        out.append(f'CALL s((4))\nEND\nSUB s (i{ty})\n  FOR i{ty} = 3 TO 1 STEP -1\n  NEXT\n  PRINT i{ty}\nEND SUB\n')
     return out
 
 
